@@ -1390,7 +1390,7 @@ fn main() {
     }
     if !is_replay {
         let mut rng = ctx.rng();
-        let n = ctx.size(45, 450);
+        let n = ctx.size(40, 450);
         for _ in 0..n {
             let input = gen_case(&mut rng, 28);
             let (o, annotated) = run_script(&input);
